@@ -28,6 +28,8 @@ package keeper
 //@   ensures[C04.sfu.left]   result != nil ==> !isnil(undelegation.ActualCompletedAmount) &&
 //@        val(undelegation.ActualCompletedAmount) == old(val(undelegation.ActualCompletedAmount)) - val(result.Amount) &&
 //@        val(undelegation.ActualCompletedAmount) >= 0 && val(result.Amount) >= 0
+//@   ensures[C01.sfu.nonneg] !isnil(undelegation.ActualCompletedAmount) && val(undelegation.ActualCompletedAmount) >= 0 &&
+//@        val(undelegation.ActualCompletedAmount) <= old(val(undelegation.ActualCompletedAmount))
 //@   ensures[C04.sfu.ids]    result != nil ==> result.StakerID == old(undelegation.StakerID) && result.AssetID == old(undelegation.AssetID)
 //@   ensures[C04.sfu.frame]  undelegation.Amount == old(undelegation.Amount) && undelegation.StakerID == old(undelegation.StakerID) &&
 //@        undelegation.AssetID == old(undelegation.AssetID) && undelegation.OperatorAddr == old(undelegation.OperatorAddr) &&
